@@ -70,7 +70,7 @@ P('C04', 'other',
    'exponent bookkeeping of orthogonalize(use_stab=True)'])
 
 P('C05', 'other',
-  ['cross._func_eval.nocache', 'cross._func_eval.cache', 'utils._info_appr', 'cross._func.--', 'cross._func.r-', 'cross._func.-c', 'cross._func.rc',
+  ['cross._func_eval.nocache', 'cross._func_eval.cache', 'utils._info_appr', 'utils._maxvol', 'cross._func.--', 'cross._func.r-', 'cross._func.-c', 'cross._func.rc',
    'cross.cross.nocache.nocb', 'cross.cross.cache.nocb', 'cross.cross.nocache.cb', 'cross.cross.cache.cb'], 30,
   ['L-CROSS (cross interpolation of an exact rank-rho tensor on nonsingular intersections is exact)'],
   'Contract-based: _func_eval in both modes (budget/None checks, counters, cache invariant: only evaluated rows enter the cache, '
@@ -92,7 +92,7 @@ P('C06', 'other',
   NOTE_T1 + NOTE_T3, 'deductive VCs from the real AST (ttvc+z3) + exhaustive fault enumeration on small configurations',
   ['cross main loop (wf-always / stop / budget invariant over both half-sweeps)'])
 
-P('C07', 'other', ['utils._info_appr', 'als._optimize_core.slices'], 10,
+P('C07', 'other', ['utils._info_appr', 'als._optimize_core.slices', 'sig.als', 'sig.als_func'], 10,
   ['L-RIDGE', 'L-BCD', 'L-PERM'],
   'Contract-based: _info_appr stop logic shared with als / als_func; _optimize_core: a slice is rewritten iff at least one sample '
   'carries its index (the obligation that failed for `not idx.any()`). Bounded: descent of the regularised objective, per-core '
@@ -136,16 +136,16 @@ P('C12', 'other', ['func.func_basis', 'func.func_sum', 'sig.func', 'sig.func_ful
   'oracle for coefficients, evaluation, integration, differentiation, TT vs dense.',
   NOTE_T1 + NOTE_T3, 'deductive VCs + cited approximation-theory lemmas + bounded exact-polynomial oracle', [])
 
-P('C13', 'other', ['anova.cores_1.pattern'], 5, [],
+P('C13', 'other', ['anova.cores_1.pattern', 'sig.anova', 'sig.anova_func'], 5, [],
   'Contract-based: the 2x2 core pattern of ANOVA.cores_1 and its chain value f0 + sum f1_k. Bounded: conditional means, order 2, '
   'noise, sparse subsets, functional variant.', NOTE_T1 + NOTE_T3, 'deductive VCs + bounded run-time contracts', [])
 
-P('C14', 'other', ['sample.sample_lhs.counts', 'sig.sample'], 5, ['L-SUMPROD'],
+P('C14', 'other', ['sample.sample_lhs.counts', 'sig.sample', 'sig.sample_func'], 5, ['L-SUMPROD'],
   'Contract-based: sample_lhs uses every index floor(m/n) or ceil(m/n) times. Bounded: chain of conditionals against the dense '
   'distribution for every multi-index (auditing generator), shapes/bounds of all samplers, uniqueness, sample_tt layout.',
   NOTE_T1 + NOTE_T3, 'deductive VCs + bounded auditing-generator checks', [])
 
-P('C15', 'other', ['optima.optima_tt.order'], 3, [],
+P('C15', 'other', ['optima.optima_tt', 'optima.optima_tt_max', 'sig.optima', 'sig.optima_func'], 3, [],
   'Contract-based: reported values are get(Y,i) of the reported indices and y_min<=y_max on both return paths. Bounded: dense '
   'arg-optima for full beams and rank-1 tensors, quantised and functional variants. Known finding: optima_tt rank-1 with pruned beam.',
   NOTE_T1 + NOTE_T3, 'deductive VCs + bounded dense comparison', [])
